@@ -60,3 +60,41 @@ package plookup
 //@ ensures[generator] isnil(result) ==> !iszero(half - 1) && iszero(half*half - 1)
 //@ modifies nothing
 //@ end
+
+// The table variant. Acceptance-implies-check, written from the scheme and from the function's own comments: nil is
+// returned only if (folded-f-bound) the commitments of the rows of f, folded with the challenge, were compared with
+// the commitment f of the inner lookup proof and found equal; (folded-table-bound) the commitments of the rows of t,
+// folded the same way, were compared with something and found equal - the function's comment says "check that the
+// folded commitment of the ts is a permutation of proof.FoldedProof.t" -; (sub-proofs) the permutation proof and the
+// inner lookup proof both verified. Precondition: at least one row (the prover cannot produce an empty proof and the
+// type has no decoder). The second clause FAILS on the pinned tree: the folded commitment comt is computed and
+// never used (known finding F38, recorded in /verif/known-findings.json, not repaired: the commitments it would
+// have to be compared with are unexported fields of permutation.Proof).
+
+//@ func VerifyLookupTables
+//@ layer ring fr.Element bigint big.Int opaque bw6761.G1Affine bw6761.G2Affine bw6761.LineEvaluationAff
+//@ option opaque-calls
+//@ option nomerge
+//@ option struct-slices
+//@ option opaque VerifyLookupVector
+//@ requires len(proof.fs) >= 1
+//@ ghost fbound = false
+//@ ghost tbound = false
+//@ ghost permok = false
+//@ ghost innerok = false
+//@ cut after call Equal #*
+//@ + ghost fbound = fbound || (callresult && same(callarg0, comf) && same(callarg1, proof.foldedProof.f))
+//@ + ghost tbound = tbound || (callresult && (same(callarg0, comt) || same(callarg1, comt)))
+//@ cut after call permutation.Verify #1
+//@ + ghost permok = isnil(callresult)
+//@ cut after call VerifyLookupVector #1
+//@ + ghost innerok = isnil(callresult)
+//@ loop 0
+//@ + invariant[rows] 0 <= i && i <= nbRows && nbRows == len(proof.fs) && len(proof.ts) == nbRows && len(comms) == 2*nbRows
+//@ loop 1
+//@ + invariant[fold] -1 <= i && i <= nbRows - 2
+//@ ensures[folded-f-bound] isnil(result) ==> fbound
+//@ ensures[folded-table-bound] isnil(result) ==> tbound
+//@ ensures[sub-proofs] isnil(result) ==> permok && innerok
+//@ modifies nothing
+//@ end
